@@ -52,42 +52,48 @@ def compare(h, r):
     return None
 
 
-def replay(ctx, cfgs, export_cfg, timeout=3000):
-    """model-check `cfgs`, export the terminal behaviours of `export_cfg`, replay them on the real engine.
-    Returns (coverage dict, list of (behaviour, real run, difference))."""
-    runs = [("EngineMC", c, True) for c in cfgs] + [("EngineMC", export_cfg, True)]
-    R = mc.check_cfgs(runs, nproc=ctx.nproc, timeout=timeout, parallel=2)
-    cov = {"states": sum(R[c]["states"] for c in cfgs + [export_cfg]),
-           "transitions": sum(R[c]["transitions"] for c in cfgs + [export_cfg]),
-           "model_configs": {c: {"states": r["states"], "depth": r["depth"]} for c, r in R.items()}}
-    H = mc.exported(R[export_cfg]["out"])
+def replay(ctx, check_cfgs, export_cfgs, expect_fail=(), timeout=3000):
+    """model-check `check_cfgs` (must pass) and `expect_fail` (pre-fix engines: must produce a counterexample), export the
+    terminal behaviours of `export_cfgs`, replay them on the real engine.
+    Returns (coverage dict, list of (behaviour, real run, difference), exported behaviours)."""
+    runs = [("EngineMC", c, True) for c in check_cfgs] + [("EngineMC", c, True) for c in export_cfgs] + \
+           [("EngineMC", c, False) for c in expect_fail]
+    R = mc.check_cfgs(runs, nproc=ctx.nproc, timeout=timeout, parallel=3)
+    okc = list(check_cfgs) + list(export_cfgs)
+    cov = {"states": sum(R[c]["states"] for c in okc), "transitions": sum(R[c]["transitions"] for c in okc),
+           "model_configs": {c: {"states": r["states"], "depth": r["depth"]} for c, r in R.items()},
+           "expected_counterexamples_found": list(expect_fail)}
+    H = []
+    for c in export_cfgs:
+        H += mc.exported(R[c]["out"])
     if not H:
         raise MachineryError("Engine export produced no behaviours")
-    cases = [{"id": i, "text": text_of(h["prog"]), "queries": h["queries"], "schedule": h["sched"]} for i, h in enumerate(H)]
-    chunk = 200
-    res = pl.run_jobs([("engine_traces", {"cases": cases[i:i + chunk]}) for i in range(0, len(cases), chunk)],
-                      nproc=ctx.nproc, timeout=600, chunksize=1)
-    diffs = []
-    n = 0
     # behaviours that differ only in the order in which a cycle's completion messages were delivered (a Python set is
     # iterated there) share program, queries and schedule: the real run must equal ONE of them
     groups = {}
     for i, h in enumerate(H):
         groups.setdefault(json.dumps([h["prog"], h["queries"], h["sched"]], sort_keys=True), []).append(i)
-    done = set()
-    byid = {}
+    keys = list(groups)
+    cases = [{"id": k, "text": text_of(H[groups[key][0]]["prog"]), "queries": H[groups[key][0]]["queries"],
+              "schedule": H[groups[key][0]]["sched"]} for k, key in enumerate(keys)]
+    chunk = 200
+    res = pl.run_jobs([("engine_traces", {"cases": cases[i:i + chunk]}) for i in range(0, len(cases), chunk)],
+                      nproc=ctx.nproc, timeout=900, chunksize=1)
+    diffs = []
+    nmsg = 0
     for r in res:
         if r.get("error"):
             raise MachineryError("engine_traces failed: %s" % r)
         for o in r["results"]:
-            byid[o["id"]] = o
-    for key, ids in groups.items():
-        n += 1
-        o = byid[ids[0]]
-        ds = [compare(H[i], o) for i in ids]
-        if all(ds):
-            diffs.append((H[ids[0]], o, ds[0] + (" (and %d more model behaviours with other completion orders)" % (len(ids) - 1) if len(ids) > 1 else "")))
-    cov["spec_behaviours_replayed_on_impl"] = n
-    cov["messages_compared"] = sum(len(h["log"]) for h in H)
+            ids = groups[keys[o["id"]]]
+            nmsg += len(o.get("log", []))
+            ds = [compare(H[i], o) for i in ids]
+            if all(ds):
+                diffs.append((H[ids[0]], o, ds[0] + (" (and %d more model behaviours with other completion orders)" % (len(ids) - 1)
+                                                   if len(ids) > 1 else "")))
+    cov["spec_behaviours_replayed_on_impl"] = len(keys)
+    cov["model_behaviours_exported"] = len(H)
+    cov["messages_compared"] = nmsg
     cov["behaviours_where_impl_differs_from_model"] = len(diffs)
+    cov["model_behaviours_ending_in_an_exception"] = sum(1 for h in H if h.get("err"))
     return cov, diffs, H
